@@ -12,7 +12,7 @@ from mc.gen import render
 
 ID = "C14"
 LEVEL = "fault_enumeration"
-LEVEL_TEXT = ("Complete enumeration of valid generated program x every statement position (top level and inside blocks, named scopes, loop bodies, taken .if branches and bodies of applied macros; every top-level variant also with the whole program in an .include'd file) x 56 classes of definite error "
+LEVEL_TEXT = ("Complete enumeration of valid generated program x every statement position (top level and inside blocks, named scopes, loop bodies, taken .if branches and bodies of applied macros; every top-level variant also with the whole program in an .include'd file) x 60 classes of definite error "
               "(bad character, bad size suffix, bad index register, unterminated string, unterminated comment, missing closing brace, "
               "stray token, undefined symbol in an operand / in data, undefined macro, too few macro arguments, addressing mode or "
               "width the mnemonic lacks, branch out of range, *= to an unmapped bank, missing .include/.incbin/.table/.include_ips "
@@ -87,7 +87,13 @@ FAULTS = {
     "if-with-unsupported-operator-ne": ".if 2 != 1 {\n.db 1\n} .else {\n.db 2\n}",
     "if-with-unsupported-operator-gt": ".if 2 > 1 {\n.db 1\n}",
     "data-with-unsupported-operator": ".db 2 > 1",
+    # a file that an EARLIER assembly in this process read successfully and that was deleted since
+    "deleted-incbin": ".incbin 'gone.bin'",
+    "deleted-include": ".include 'gone.s'",
+    "deleted-table": ".table 'gone.tbl'\n.text 'a'",
+    "deleted-include-ips": ".include_ips 'gone.ips', 0",
 }
+GONE = {"gone.bin": b"\x01\x02\x03", "gone.s": ".db 0x41\n", "gone.tbl": "41=a\n", "gone.ips": b"PATCH" + bytes([0, 0x10, 0, 0, 1, 0x55]) + b"EOF"}
 PRELUDE = [("macro", "c14two", ["p", "q"], [("data", "db", [("s", "p"), ("s", "q")])]),
            ("macro", "c14ignore", ["p"], [("data", "db", [("n", 1, "1")])])]
 ENTRIES = ["string-api", "assemble", "assemble_as_patch", "cli-ips", "cli-sfc"]
@@ -121,7 +127,7 @@ def setup(tier, seed):
 
 
 def bound(tier):
-    return "7 base programs x every top-level and nested position x 56 error classes x 5 in-process entry points; 56 x 2 real CLI processes; controls"
+    return "7 base programs x every top-level and nested position x 60 error classes x 5 in-process entry points; 60 x 2 real CLI processes; controls"
 
 
 def base_programs():
@@ -267,6 +273,15 @@ def run_fault(name, fault):
     if fault in ("undefined-macro", "too-few-macro-arguments"):
         # an earlier, unrelated assembly in this process that DEFINES that macro name must not make the error go away
         impl.assemble(".macro nosuchmacro(a) {\n.db a\n}\n.macro c14two(p) {\n.db p\n}\n*=0x018000\nnosuchmacro(1)\nc14two(2)\n", rom="low_rom")
+    if fault.startswith("deleted-"):
+        impl.write_files(GONE)
+        first = impl.assemble("*=0x018000\n" + FAULTS[fault] + "\n.db 1\n", rom="low_rom")
+        for f_ in GONE:
+            if os.path.exists(f_):
+                os.remove(f_)
+        if not first.accepted:
+            return {"evals": 1, "nt_count": 0, "outcome": "HARNESS", "violations": [
+                {"key": "status:harness-program-not-valid", "msg": f"{fault}: the preparing assembly failed: {first.brief()}"}]}
     files = dict(c12.FILES)
     files.update(render.files_of(prog))
     n_top = len(prog) - len(PRELUDE)
